@@ -32,3 +32,4 @@ PROP = {
                                  "false-alarm probability across VERIF_SEED values of the order of 1e-7 per run"],
 }
 PROP["level_text"] += ' Law tests now number 96 (thorough 2880); inverse-transform and rejection targets also run on the windows [0,1e-12], [1e9,1e9+1], [-3e8,-3e8+0.5] and [0,1e6] with 2e5 draws.'
+PROP["level_text"] += ' One sampler call from equal generator states is compared after different histories of other sampler calls on other generators; the third moment of Sample_Poisson is tested around mean 1000 with N = 1000 mean.'
